@@ -371,7 +371,8 @@ def rrOk (rr : RR) : Bool :=
      | none => false)
 
 def recOk (r : Rec) : Bool :=
-  r.id < 65536 && flagsValid r.flags && opcodeValid r.opcode && rcodeValid r.rcode &&
+  -- `unsigned short id, flags`
+  r.id < 65536 && r.flags < 65536 && flagsValid r.flags && opcodeValid r.opcode && rcodeValid r.rcode &&
   -- F33: exactly one question
   r.qd.length = 1 &&
   r.qd.all (fun q => recTypeValid q.qtype true && classValid q.qclass q.qtype true) &&
